@@ -502,6 +502,13 @@ fn cells(tier: &str) -> Vec<Value> {
         v.push(json!({"cell": id, "family": "racing-first-registrations", "mixed_patterns": k % 2 == 1, "trials": trials}));
         id += 1;
     }
+    // the same race against a server whose tasks wait 10 ms before re-acquiring a tokio mutex they
+    // have released (and before a nested acquisition): a check and an act in two critical
+    // sections of one lock are then really interleaved by the racing handlers
+    for k in 0..4 {
+        v.push(json!({"cell": id, "family": "racing-first-registrations-widened", "mixed_patterns": k % 2 == 1, "trials": 4, "lock_windows_ms": (["10", "10,30"][k / 2])}));
+        id += 1;
+    }
     for sk in ["publisher", "subscriber", "requestor", "replier"] {
         for ans in KINDS.iter().copied().chain(["close", "ErrorBinary7", "ErrorBinary8", "ErrorBinary64", "ErrorBinaryMax"]) {
             v.push(json!({"cell": id, "family": "client-open", "stream": sk, "server_answer": ans}));
@@ -528,6 +535,17 @@ pub async fn run(tier: &str, replaying: bool) -> ! {
             let id = c["cell"].as_u64().unwrap();
             let r = match c["family"].as_str().unwrap() {
                 "first-frame" => first_frame_cell(addr, set, c["first_frame"].as_str().unwrap().into(), c["topic_state"].as_str().unwrap().into(), c["size"].as_str() == Some("at-limit"), id).await,
+                "racing-first-registrations-widened" => match crate::c16::ServerChild::spawn(&set, c["lock_windows_ms"].as_str()) {
+                    Ok(sc) => {
+                        let r = race_cell(sc.addr, set, c["mixed_patterns"].as_bool().unwrap(), c["trials"].as_u64().unwrap() as usize, id).await;
+                        sc.stop();
+                        r.map_err(|mut f| {
+                            f.class = format!("{}:widened={}", f.class, c["lock_windows_ms"].as_str().unwrap_or(""));
+                            f
+                        })
+                    }
+                    Err(e) => Err(fail("setup", "server child", e)),
+                },
                 "racing-first-registrations" => race_cell(addr, set, c["mixed_patterns"].as_bool().unwrap(), c["trials"].as_u64().unwrap() as usize, id).await,
                 "follow-up" => followup_cell(addr, set, c["role"].as_str().unwrap().into(), c["frame"].as_str().unwrap().into(), c["size"].as_str().unwrap().into(), id).await,
                 _ => client_cell(set, c["stream"].as_str().unwrap().into(), c["server_answer"].as_str().unwrap().into()).await,
@@ -540,7 +558,7 @@ pub async fn run(tier: &str, replaying: bool) -> ! {
     finish(
         rep,
         outs,
-        "first-frame: each of the 8 frame kinds as the first frame of a stream on a topic that is fresh / already pub/sub / already request/reply (24 cells, plus the payload-carrying kinds with a 1 MiB - 64 B body of 0xff bytes): the stream must be served in its role (exercised with helper peers) or refused with an error frame carrying a code - never Ok followed by abandonment, never a silent close; follow-up: a registered publisher / requestor / replier sends each of the 8 kinds once (small; Message also at the size that fits 1 MiB only before the routing tag; thorough: zero/at-limit for payload-carrying kinds); client-open: the real client's open() for each of the 4 stream kinds against a fake server answering the registration with each of the 8 kinds, with error frames whose code is unknown and whose message is not UTF-8 (also after an Ok, for a listening replier), or closing. After every server-side cell a well-behaved real client must complete a round trip on the same topic. racing-first-registrations (auxiliary, schedules SAMPLED by repetition, not enumerated): 4 raw peers on separate connections open the first streams of a fresh topic simultaneously (same pattern, or two of each pattern), 8 cells x 40 (150) trials; everyone answered Ok must be served",
+        "first-frame: each of the 8 frame kinds as the first frame of a stream on a topic that is fresh / already pub/sub / already request/reply (24 cells, plus the payload-carrying kinds with a 1 MiB - 64 B body of 0xff bytes): the stream must be served in its role (exercised with helper peers) or refused with an error frame carrying a code - never Ok followed by abandonment, never a silent close; follow-up: a registered publisher / requestor / replier sends each of the 8 kinds once (small; Message also at the size that fits 1 MiB only before the routing tag; thorough: zero/at-limit for payload-carrying kinds); client-open: the real client's open() for each of the 4 stream kinds against a fake server answering the registration with each of the 8 kinds, with error frames whose code is unknown and whose message is not UTF-8 (also after an Ok, for a listening replier), or closing. After every server-side cell a well-behaved real client must complete a round trip on the same topic. racing-first-registrations (auxiliary, schedules SAMPLED by repetition, not enumerated): 4 raw peers on separate connections open the first streams of a fresh topic simultaneously (same pattern, or two of each pattern), 8 cells x 40 (150) trials, plus 4 cells x 4 trials against a server child whose tasks wait 10 ms (or 10 and 30 ms in turn, so that racing handlers are staggered) before a nested or repeated acquisition of a tokio mutex (seam in the vendored tokio: a check and an act split over two critical sections are then interleaved for certain); everyone answered Ok must be served",
         "hostile inputs enumerated exhaustively over frame kinds x topic states x roles",
         json!({}),
         replaying,
